@@ -123,6 +123,13 @@ pub fn plan(p: u32, tier: &str) -> Vec<Run> {
         x.faults = vec![false, faults2];
         x
     };
+    // chains of up to six Ephemeral/Output jobs with one changing side input (<= 2 changes per step)
+    let chains = |faults2: bool| {
+        let mut x = s(if faults2 { "chains6" } else { "chains6-ff" }, 2, m);
+        x.faults = vec![false, faults2];
+        x.edit_bound = Some(2);
+        x
+    };
     let eph_shapes = ["late-requirement", "E-E-O+A", "E-E-E-O+A", "E-E-O+A-mid", "E-O-E-O"];
     match p {
         1 => {
@@ -131,6 +138,7 @@ pub fn plan(p: u32, tier: &str) -> Vec<Run> {
             add(s4d2ff(), families::slots(4));
             add(late("latepair", true), families::late_pair());
             add(late("bigshapes", true), families::big_shapes());
+            add(chains(true), families::chains(6));
             let mut ig = s("S3D2-ignore", 2, m);
             ig.faults = vec![true, false];
             add(ig, families::slots_ignore(3));
@@ -158,6 +166,7 @@ pub fn plan(p: u32, tier: &str) -> Vec<Run> {
             add(late("late2x", true), families::late_gadget(2, true));
             add(late("latepair", true), families::late_pair());
             add(late("bigshapes", true), families::big_shapes());
+            add(chains(true), families::chains(6));
             add(shapes_spec("eph-shapes-D2", 2, false), shapes_named(&eph_shapes));
             if thorough {
                 add(s3d3(), families::slots(3));
@@ -177,6 +186,7 @@ pub fn plan(p: u32, tier: &str) -> Vec<Run> {
             add(late("late2x", true), families::late_gadget(2, true));
             add(late("latepair", true), families::late_pair());
             add(late("bigshapes", true), families::big_shapes());
+            add(chains(true), families::chains(6));
             add(rename("rename-prod", Conv::Parts, Cmp::Prod), families::rename_opts(true, Kind::O, false));
             add(rename("rename-test", Conv::JobIds, Cmp::Plain), families::rename_opts(false, Kind::O, false));
             add(noise("S3D2-noise", 2, false, false), families::slots(3));
@@ -206,6 +216,7 @@ pub fn plan(p: u32, tier: &str) -> Vec<Run> {
             add(late("late2x", true), families::late_gadget(2, true));
             add(late("latepair", true), families::late_pair());
             add(late("bigshapes", true), families::big_shapes());
+            add(chains(true), families::chains(6));
             let mut o = s("S3D2-orders", 2, m);
             o.orders = Orders::AllNodes;
             add(o, families::slots(3));
@@ -229,6 +240,7 @@ pub fn plan(p: u32, tier: &str) -> Vec<Run> {
             add(late("late2x", true), families::late_gadget(2, true));
             add(late("latepair", true), families::late_pair());
             add(late("bigshapes", true), families::big_shapes());
+            add(chains(true), families::chains(6));
             add(shapes_spec("shapes-D2", 2, false), families::shapes(true));
             add(rename("rename-prod", Conv::Parts, Cmp::Prod), families::rename_opts(false, Kind::O, false));
             if thorough {
@@ -250,6 +262,7 @@ pub fn plan(p: u32, tier: &str) -> Vec<Run> {
             add(late("late2x", true), families::late_gadget(2, true));
             add(late("latepair", true), families::late_pair());
             add(late("bigshapes", true), families::big_shapes());
+            add(chains(true), families::chains(6));
             add(s("S3D2-volatile", 2, m), families::slots_volatile(3));
             add(shapes_spec("shapes-D2", 2, false), families::shapes(true));
             if thorough {
@@ -292,6 +305,7 @@ pub fn plan(p: u32, tier: &str) -> Vec<Run> {
             add(late("late2x", true), families::late_gadget(2, true));
             add(late("latepair", true), families::late_pair());
             add(late("bigshapes", true), families::big_shapes());
+            add(chains(true), families::chains(6));
             add(shapes_spec("shapes-D1", 1, false), families::shapes(true));
             if thorough {
                 add(s3d3(), families::slots(3));
@@ -337,6 +351,7 @@ pub fn plan(p: u32, tier: &str) -> Vec<Run> {
             add(late("late2x", true), families::late_gadget(2, true));
             add(late("latepair", true), families::late_pair());
             add(late("bigshapes", true), families::big_shapes());
+            add(chains(true), families::chains(6));
             add(shapes_spec("shapes-D2", 2, false), families::shapes(true));
             if thorough {
                 add(s3d3(), families::slots(3));
@@ -358,6 +373,7 @@ pub fn plan(p: u32, tier: &str) -> Vec<Run> {
             add(late("late2x-ff", false), families::late_gadget(2, true));
             add(late("latepair-ff", false), families::late_pair());
             add(late("bigshapes-ff", false), families::big_shapes());
+            add(chains(false), families::chains(6));
             if thorough {
                 let mut oa = s("S3D2-orders-all", 2, m);
                 oa.orders = Orders::All;
@@ -418,6 +434,7 @@ pub fn plan(p: u32, tier: &str) -> Vec<Run> {
             add(late("late2x", true), families::late_gadget(2, true));
             add(late("latepair", true), families::late_pair());
             add(late("bigshapes", true), families::big_shapes());
+            add(chains(true), families::chains(6));
             add(s("S3D2-volatile", 2, m), families::slots_volatile(3));
             add(shapes_spec("shapes-D2", 2, false), families::shapes(true));
             if thorough {
@@ -468,6 +485,14 @@ pub fn plan(p: u32, tier: &str) -> Vec<Run> {
         _ => {
             add(s3(false), families::slots(3));
             add(s4(false), families::slots(4));
+        }
+    }
+    // every terminal of every configuration is re-derived by stateless replay for graphs of up to
+    // three jobs; above that the first and last four terminals of each configuration
+    for r in runs.iter_mut() {
+        let big = r.universes.iter().any(|u| u.graphs.iter().any(|g| g.n() >= 4));
+        if big {
+            r.spec.validate_all = false;
         }
     }
     runs
@@ -781,6 +806,8 @@ pub fn cmd_run(args: &[String]) -> i32 {
         "late3x" => families::late_gadget(3, true),
         "bigshapes" => families::big_shapes(),
         "latepair" => families::late_pair(),
+        "chains5" => families::chains(5),
+        "chains6" => families::chains(6),
         _ => {
             eprintln!("unknown family");
             return 2;
